@@ -99,12 +99,6 @@ Definition config_eqb (a b : config) : bool :=
   end.
 
 (* the hypothesis of the theorems, checked on every case: relay maps are key-unique *)
-Fixpoint nodupb (l : list N) : bool :=
-  match l with
-  | [] => true
-  | x :: l' => negb (memb N.eqb x l') && nodupb l'
-  end.
-
 Definition wf_config_b (c : config) : bool :=
   match c with
   | CV1 c1 => nodupb (map fst (c1_props c1))
